@@ -252,7 +252,7 @@ func dstSide(r *mon.Run) {
 		}
 		for _, k := range calls {
 			for _, once := range []bool{false, true} {
-				for _, partial := range []int{0, -1, -2} {
+				for _, partial := range []int{0, -1, -2, -3} {
 					jobs = append(jobs, job{c: c, f: fault{atCall: k, partial: partial, once: once}, stop: !once || partial != 0, n: n, b: b})
 				}
 			}
@@ -379,6 +379,13 @@ func (p *partialWriter) Write(b []byte) (int, error) {
 			p.fw.Partial = len(b) / 2
 		case -2:
 			p.fw.Partial = len(b) - 1
+		case -3:
+			// the full count AND an error: (len(p), err) is a legal result (a
+			// writer that takes the bytes and then fails to sync or frame them);
+			// nothing of this call counts as accepted
+			p.fw.Partial = 0
+			_, err := p.fw.Write(b)
+			return len(b), err
 		default:
 			p.fw.Partial = 0
 		}
